@@ -1273,4 +1273,144 @@ theorem obs_mem_iff {o : Opts} {args : List Arg} (hw : WF args) {items : List It
   obtain ⟨_, _, rfl, _⟩ := run_ok_inv h
   exact (itemsOf_obs o args hw).mem_iff
 
+/-! ## the path-mapping component of the outcome -/
+
+/-- what `get_mapping` may return given the candidate list of the run: `None` iff there is no
+candidate, otherwise the content of ONE of them (`linked_files_maps.iter().next()`: the first entry
+of a hash map, i.e. an arbitrary one) -/
+def mappingMay (maps : List Nat) (r : Option Nat) : Prop :=
+  match r with
+  | none => maps = []
+  | some c => c ∈ maps
+
+/-- at most one distinct `linked-files-map.json` content among the artifacts -/
+def MapConsistent (as : List Art) : Prop :=
+  ∀ c ∈ cidsOf .linkedMap as, ∀ d ∈ cidsOf .linkedMap as, c = d
+
+/-- equivalence of outcomes INCLUDING the path mapping: `OutcomeEquiv`, and whatever the two runs
+may return as mapping is the same -/
+def MapsAgree : Outcome → Outcome → Prop
+  | .ok _ m₁, .ok _ m₂ => ∀ r₁ r₂, mappingMay m₁ r₁ → mappingMay m₂ r₂ → r₁ = r₂
+  | _, _ => True
+
+def OutcomeEquivM (a b : Outcome) : Prop := OutcomeEquiv a b ∧ MapsAgree a b
+
+theorem mapsAgree_intro {a b : Outcome}
+    (h : ∀ i₁ m₁ i₂ m₂, a = .ok i₁ m₁ → b = .ok i₂ m₂ →
+      ∀ r₁ r₂, mappingMay m₁ r₁ → mappingMay m₂ r₂ → r₁ = r₂) : MapsAgree a b := by
+  cases a <;> cases b <;> simp only [MapsAgree]
+  exact h _ _ _ _ rfl rfl
+
+theorem linkedMap_perm_of_relevant {as bs : List Art}
+    (p : (as.filter Art.relevant).Perm (bs.filter Art.relevant)) :
+    (cidsOf .linkedMap as).Perm (cidsOf .linkedMap bs) := by
+  have := cidsOf_perm .linkedMap p
+  rwa [cidsOf_filter_relevant _ (by simp), cidsOf_filter_relevant _ (by simp)] at this
+
+/-- with at most one distinct map content, what a run may return is determined by the artifacts -/
+theorem mapping_determined (o : Opts) (args : List Arg) (hw : WF args)
+    (hm : MapConsistent (arts o.isLlvm args)) (r : Option Nat)
+    (hr : mappingMay (candsOf o args) r) :
+    r = (cidsOf .linkedMap (arts o.isLlvm args)).head? := by
+  cases r with
+  | none =>
+    have h : candsOf o args = [] := hr
+    rw [(cands_nil_iff o args hw).1 h]; rfl
+  | some c =>
+    have hc : c ∈ cidsOf .linkedMap (arts o.isLlvm args) := cands_sub o args hw c hr
+    cases hl : cidsOf .linkedMap (arts o.isLlvm args) with
+    | nil => rw [hl] at hc; cases hc
+    | cons d ds =>
+      have hd : d ∈ cidsOf .linkedMap (arts o.isLlvm args) := by rw [hl]; exact List.mem_cons_self
+      rw [hm c hc d hd]; rfl
+
+theorem run_equivM_of_arts (o : Opts) (args₁ args₂ : List Arg) (w₁ : WF args₁) (w₂ : WF args₂)
+    (hb : args₁.any Arg.bad = args₂.any Arg.bad)
+    (p : ((arts o.isLlvm args₁).filter Art.relevant).Perm ((arts o.isLlvm args₂).filter Art.relevant))
+    (hc : GcnoConsistent (arts o.isLlvm args₁)) (hm : MapConsistent (arts o.isLlvm args₁)) :
+    OutcomeEquivM (run o args₁) (run o args₂) := by
+  refine ⟨run_equiv_of_arts o args₁ args₂ w₁ w₂ hb p hc, ?_⟩
+  have pl := linkedMap_perm_of_relevant p
+  have hm₂ : MapConsistent (arts o.isLlvm args₂) := fun c hc' d hd =>
+    hm c (pl.mem_iff.2 hc') d (pl.mem_iff.2 hd)
+  apply mapsAgree_intro
+  intro i₁ m₁ i₂ m₂ e₁ e₂ r₁ r₂ h₁ h₂
+  obtain ⟨_, _, _, rfl⟩ := run_ok_inv e₁
+  obtain ⟨_, _, _, rfl⟩ := run_ok_inv e₂
+  rw [mapping_determined o args₁ w₁ hm r₁ h₁, mapping_determined o args₂ w₂ hm₂ r₂ h₂]
+  -- equal heads: the two lists are permutations of each other and constant
+  cases h1 : cidsOf .linkedMap (arts o.isLlvm args₁) with
+  | nil =>
+    rw [h1] at pl
+    rw [pl.symm.eq_nil]
+  | cons c cs =>
+    cases h2 : cidsOf .linkedMap (arts o.isLlvm args₂) with
+    | nil => rw [h2] at pl; exact absurd pl.eq_nil (by rw [h1]; simp)
+    | cons d ds =>
+      have hc1 : c ∈ cidsOf .linkedMap (arts o.isLlvm args₁) := by
+        rw [h1]; exact List.mem_cons_self
+      have hd1 : d ∈ cidsOf .linkedMap (arts o.isLlvm args₁) :=
+        pl.mem_iff.2 (by rw [h2]; exact List.mem_cons_self)
+      simp [hm c hc1 d hd1]
+
+/-! ## classification of the arguments -/
+
+theorem toArg_not_bad {r : RawArg} {a : Arg} (hs : r.self.path = r.full) (h : r.toArg = .ok a) :
+    a.bad = false := by
+  unfold RawArg.toArg at h
+  cases hc : classifyArg r.path r.full r.isDir <;> rw [hc] at h <;> simp only at h
+  · split at h
+    · cases h; rfl
+    · cases h
+  · cases h; rfl
+  · cases h
+    unfold classifyArg at hc
+    split at hc
+    · cases hc
+    · split at hc
+      · cases hc
+      · unfold extClass at hc
+        split at hc
+        · rename_i s e he
+          split at hc
+          · rename_i hin
+            simp only [Arg.bad, plainOk, hs, he, hin, Bool.not_true]
+          · cases hc
+        · cases hc
+  · cases h
+  · cases h
+
+theorem classifyAll_not_bad {raws : List RawArg} {args : List Arg}
+    (hs : ∀ r ∈ raws, r.self.path = r.full) (h : classifyAll raws = .ok args) :
+    args.any Arg.bad = false := by
+  induction raws generalizing args with
+  | nil => cases h; rfl
+  | cons r rs ih =>
+    unfold classifyAll at h
+    cases hr : r.toArg with
+    | error e => rw [hr] at h; cases h
+    | ok a =>
+      rw [hr] at h
+      simp only at h
+      cases hrs : classifyAll rs with
+      | error e => rw [hrs] at h; cases h
+      | ok as =>
+        rw [hrs] at h
+        cases h
+        rw [List.any_cons, toArg_not_bad (hs r List.mem_cons_self) hr,
+          ih (fun r' hr' => hs r' (List.mem_cons_of_mem _ hr')) hrs]
+        rfl
+
+theorem classifyArg_zip (path full : Name) (isDir : Bool) (h : endsWith path bDotZip = true) :
+    classifyArg path full isDir = .zip := by
+  simp [classifyArg, h]
+
+theorem classifyArg_dir (path full : Name) (h : endsWith path bDotZip = false) :
+    classifyArg path full true = .dir := by
+  simp [classifyArg, h]
+
+theorem classifyArg_file (path full : Name) (h : endsWith path bDotZip = false) :
+    classifyArg path full false = extClass full := by
+  simp [classifyArg, h]
+
 end Grcov.Producer
